@@ -8,7 +8,7 @@ from vt.runner import where, AnalysisError
 from rules import common, ir
 from rules import compile_roles as cr
 from rules.C07 import _key_is
-from rules.C17 import shapes
+from rules.C17 import shapes, dialect_list
 
 EXPLANATION = (
     "Rules on the OID path: the grammar delivers the three sub-identifier spellings as three distinguishable shapes "
@@ -32,9 +32,8 @@ def r1_subidentifier_shapes(chk):
     chk.unit(PARSER, INTER, SYMTAB)
     chk.doc('C01.R1', 'subidentifier = name | NUMBER | name "(" NUMBER ")" in every dialect, yielding p1 / p1 / '
                       '(p1, p3); subidentifiers appends in source order; objectIdentifier = ("objectIdentifier", list)')
-    ship = shipped_dialects(model)
-    for dname in ('smiV2', 'smiV1', 'smiV1Relaxed'):
-        gs = shapes(model, ship[dname])
+    for dname, opts in dialect_list(chk):
+        gs = shapes(model, opts)
         alts = dict((p.rhs, repr(gs.terms[p])) for p in gs.by_lhs.get('subidentifier', []))
         want = {('fuzzy_lowercase_identifier',): 'p1', ('NUMBER',): 'p1',
                 ('LOWERCASE_IDENTIFIER', "'('", 'NUMBER', "')'"): '(p1, p3)'}
